@@ -159,6 +159,33 @@ func c07Run(w *W) {
 	// every derivation of the grammar generator (each compound form, nested once, here-documents before each
 	// compound form, the word menu) in one-line and multi-line layout as the FIRST command of a stream, followed
 	// by each of a few commands: whatever state a construct leaves behind in the lexer must not reach the next call
+	// the repetition family as first command of a stream (only the sources that are ONE command)
+	for n := 1; n <= 24; n++ {
+		if !w.Mine() || w.TimeUp() {
+			continue
+		}
+		for _, src := range repetitionSources(n) {
+			if o := runParse(src); o.err != nil || o.rest != 0 || len(o.cmds) == 0 {
+				continue
+			}
+			for _, fo := range [][]string{{"a\n"}, {"cat <<E\nx\nE\n", "b\n"}} {
+				parts := append([]string{src}, fo...)
+				for _, rk := range []string{"strings.Reader", "runescanner"} {
+					c := c07Case{Parts: parts, Reader: rk}
+					w.Announce(src)
+					w.Count("evaluations", 1)
+					w.Count("repetition_streams", 1)
+					w.Count("states", int64(len(parts)))
+					w.Count("transitions", int64(len(parts)))
+					w.Count("traces_validated_against_impl", 1)
+					w.Count("distinct_nontrivial", 1)
+					if d := c07Judge(c); d != "" {
+						w.Violation("", c, d)
+					}
+				}
+			}
+		}
+	}
 	followers := [][]string{{"a\n"}, {"{ b; }\n", "c\n"}, {"cat <<E\nx\nE\n"}, {"\n", "if a; then b; fi\n"}, {"a"}}
 	seen := map[string]bool{}
 	derivations(w.thorough(), func(name string, texts []string) {
